@@ -54,7 +54,7 @@ def run(ctx):
         for item in json.load(f):
             ops, encs, finds = c45.gen_and_run45(ctx.rng, item['nhosts'], 0, script=item['ops'])
             one(item['nhosts'], ops, encs, finds, sample=True)
-    total = 700 if ctx.tier == 'quick' else 12000
+    total = 700 if ctx.tier == 'quick' else 6000
     for i in range(total):
         n = ctx.rng.randint(1, 2)
         ops, encs, finds = c45.gen_and_run45(ctx.rng, n, ctx.rng.choice([6, 8, 10, 12]))
